@@ -176,6 +176,13 @@ class _Sub:
     def rule(self, *a):
         pass
 
+    def observe(self, *a):
+        return self.ck.observe(*a)
+
+    @property
+    def notes(self):
+        return self.ck.notes
+
 
 def stark_transcript(F, ck):
     """C04 completeness / ordering / agreement restricted to the STARK protocol"""
